@@ -18,6 +18,7 @@ META = {
     "assumptions": ["Iterator::enumerate numbers items from 0 in iteration order; Vec indexing semantics"],
     "not_decided": ["round trip of a reported path through parser and evaluator"],
 }
+META["explanation"] += " R6 the name looked up and the name written into the path are the same text (no two-pass rewriting of the key; shared with C01-R6). R7 every Normalized Path is accepted by the library's own parser (shared with C09-R6)."
 
 PTR = "crate::query::state::Pointer::<'a, T>::"
 QT = "crate::query::queryable::Queryable"
